@@ -23,7 +23,7 @@ PROPERTIES = {
         note='Trusted: Verus+Z3; extraction rewrites; Vec<u8> sink model (write_all appends, never fails); to_be_bytes stubs; obeys_key_model::<Label>(); ordered LabelRange precondition.',
         out=['write_code retry loop and instruction match (closure)', 'duke/src/simple_class_writer/pool.rs PoolWrite::put (HashMap::entry)', 'attribute emitters']),
     'C04': dict(
-        level='proof', verus=['adiff'], kani=['names'],
+        level='proof', verus=['adiff'], kani=['names', 'diff'],
         technique=VERUS_TECH,
         claim='Unbounded proof, for the functions under contract only: apply_diff_option equals the spec table of the property (None keeps, Add only onto absent, Remove/Edit only when the stated old value matches, every other combination refused), '
               'Action::{from_tuple,to_tuple,flip,is_diff} equal their algebraic specs, and the lemmas from_tuple/to_tuple isomorphism, flip involution and apply(diff(a,b),a)=b hold for all values of all types. '
